@@ -51,7 +51,7 @@ func init() {
 			}
 			if tier == "selftest" {
 				return seeded("C04", seed, 6, func(i int, sd uint64) *k.Spec {
-					s := &k.Spec{Params: cp(cells[int(k.H(sd, "cell", 0)%uint64(len(cells)))])}
+					s := &k.Spec{Seed: sd, Params: cp(cells[int(k.H(sd, "cell", 0)%uint64(len(cells)))])}
 					swarm(s, "")
 					return s
 				})
@@ -65,7 +65,7 @@ func init() {
 				n = 100000
 			}
 			out = append(out, seeded("C04", seed, n, func(i int, sd uint64) *k.Spec {
-				s := &k.Spec{Params: cp(cells[int(k.H(sd, "cell", 0)%uint64(len(cells)))])}
+				s := &k.Spec{Seed: sd, Params: cp(cells[int(k.H(sd, "cell", 0)%uint64(len(cells)))])}
 				swarm(s, "client.go:Client.Kill,rpc_client.go:RPCClient.Close,grpc_client.go:GRPCClient.Close,grpc_controller.go,rpc_server.go:RPCServer.done")
 				if s.DelayClass == "big" || s.DelayClass == "mid" {
 					s.DelayClass = "tiny" // window-crossing delays would only blur the grace-period oracle
